@@ -101,6 +101,13 @@ def run(ctx: Ctx):
                 'out str[3] s;\nhook h0;\nparser {\n s += /[a-c]+/;\n end;\n if s.len == 2 {\n  h0();\n }\n}\n'):
         base = ["-feof-support", "-O2"]
         cases.append(diff.Case("eof-hooks", [("default", src, base)] + [("row", src, base + row) for row in rows(rng, 3)], seeds=[b"ab", b"a", b"xx", b"abc", b"abx", b"cab"]))
+    # stored bytes >= 0x80 read back through indexing, $last, comparisons and arithmetic: char or uint8_t storage must not show
+    for src in ('out str[4] s;\nout int x = 0;\nout int y = 0;\nhook h0;\nparser {\n loop {\n  s += /./;\n  x = [s[0]];\n  y = [s[s.len - 1] + 1];\n  if s[0] > 127 {\n   h0();\n  }\n  if s.len == 3 {\n   delete s;\n  }\n }\n}\n',
+                'out unterminated str[3] s;\nout int{unsigned, size 1} x;\nout int{size 2} y;\nhook h0;\nparser {\n s += b/[80-ff]/;\n x = [s[0] >> 1];\n y = [s[0] * 2 - $last];\n s += [s[0] ^ 255];\n if s[1] < s[0] {\n  h0();\n }\n /./;\n}\n',
+                'out raw{uint16_t} r;\nout str[3] s = "\\xe9\\xff";\nout int x = 0;\nhook h0;\nparser {\n r += /../;\n x = [r[0] + r[1] * 256 + s[0] + s[1]];\n if s[1] == 255 {\n  h0();\n }\n ";";\n}\n'):
+        base = ["-O2"]
+        variants = [("default", src, base), ("u8", src, base + ["-fstrings-as-u8"]), ("u8-dyn", src, base + ["-fstrings-as-u8", "-fallocate-str-space-dynamic"])] + [("row", src, base + row) for row in rows(rng, 2)]
+        cases.append(diff.Case("high-bytes", variants, seeds=[b"\xe9\x80\xff;", b"\xff\xfe;", b"a\x80\x7f\x81;", b"\x80", b"\xff\x00\xe9\x01"]))
     for fn, src, args, seeds in work.corpus():
         b = fn.rsplit("/", 1)[-1]
         if quick and b in ("gtfs-realtime.nmfu", "ttc_rdf.nmfu"):
